@@ -127,7 +127,7 @@ Qed.
 
 (* ------------------------------------------------------------------ where executor tasks come from *)
 Lemma query_queue s h m c s' ev ok : query s h m c = (s', ev, ok) -> queue s' = queue s.
-Proof. rewrite query_eq. destruct (reason (pool_of s h)); intros H; inversion H; subst; reflexivity. Qed.
+Proof. rewrite query_eq. destruct (reason (pool_of s h)); intros H; inversion H; subst; qnorm; reflexivity. Qed.
 
 Lemma send_request_queue s b s' ev : send_request s b = (s', ev) -> queue s' = queue s.
 Proof. intros W. apply walk_frame_ok in W. apply W. Qed.
@@ -135,19 +135,19 @@ Proof. intros W. apply walk_frame_ok in W. apply W. Qed.
 Lemma qon_queue s h m c s' ev : query_or_next s h m c = (s', ev) -> queue s' = queue s.
 Proof.
   unfold query_or_next. intros H. destruct (query s h m c) as [[s1 ev1] ok] eqn:Q. apply query_queue in Q.
-  destruct ok; [inversion H; subst; exact Q|].
+  destruct ok; [inversion H; subst; qnorm; exact Q|].
   destruct (send_request s1 true) as [s2 ev2] eqn:W. inversion H; subst. apply send_request_queue in W. congruence.
 Qed.
 
 Lemma after_prepare_queue c s h r s' ev : after_prepare c s h r = (s', ev) -> queue s' = queue s.
 Proof.
   unfold after_prepare. intros H.
-  destruct (is_some (fin_exc s)); [inversion H; subst; reflexivity|].
-  destruct r; try (inversion H; subst; reflexivity).
+  destruct (is_some (fin_exc s)); [inversion H; subst; qnorm; reflexivity|].
+  destruct r; try (inversion H; subst; qnorm; reflexivity).
   - destruct (fut_ps c) as [[[pid pqs] pks]|].
-    + destruct (negb (pid =? id)); [inversion H; subst; reflexivity|eapply qon_queue; eauto].
+    + destruct (negb (pid =? id)); [inversion H; subst; qnorm; reflexivity|eapply qon_queue; eauto].
     + eapply qon_queue; eauto.
-  - destruct (is_conn_kind k); [|inversion H; subst; reflexivity].
+  - destruct (is_conn_kind k); [|inversion H; subst; qnorm; reflexivity].
     destruct (send_request (set_err s h (EResp k tag)) true) as [s2 ev2] eqn:W. inversion H; subst.
     apply send_request_queue in W. exact W.
 Qed.
@@ -155,7 +155,7 @@ Qed.
 Lemma run_task_queue c s t s' ev : run_task c s t = (s', ev) -> queue s' = queue s.
 Proof.
   intros H. destruct t as [reuse h|h qs ks|h r]; cbn [run_task] in H.
-  - destruct (is_some (fin_exc s)); [inversion H; subst; reflexivity|].
+  - destruct (is_some (fin_exc s)); [inversion H; subst; qnorm; reflexivity|].
     destruct reuse; [eapply qon_queue; eauto|eapply send_request_queue; eauto].
   - eapply qon_queue; eauto.
   - eapply after_prepare_queue; eauto.
@@ -175,10 +175,10 @@ Definition enqueued_by (h : host) (r : resp) (ev : list event) (t : task) : Prop
 Lemma set_result_queue c s h r s' ev t : set_result c s h r = (s', ev) -> In t (queue s') ->
   In t (queue s) \/ enqueued_by h r ev t.
 Proof.
-  intros H Hin. destruct r; cbn [set_result] in H; try (inversion H; subst; left; exact Hin).
+  intros H Hin. destruct r; cbn [set_result] in H; try (inversion H; subst; qnorm; left; exact Hin).
   - destruct (pol c (nconsult s) k tag (retries s) (if request_error_kind k then msg_cl s else None)) as [d dcl] eqn:P.
-    unfold handle_decision in H. inversion H; subst; clear H.
-    destruct d; cbn [queue set_err set_exc set_res bump_retry tick_consult fin_exc] in Hin; auto.
+    unfold handle_decision in H. inversion H; subst; qnorm; clear H.
+    destruct d; cbn [queue set_err] in Hin; qnorm; cbn [queue set_err set_exc set_res bump_retry tick_consult fin_exc] in Hin; auto.
     + destruct (is_some (fin_exc s)); [left; exact Hin|].
       apply in_app_iff in Hin. destruct Hin as [Hin|[<-|[]]]; auto. right. cbn.
       split; [reflexivity|]. do 6 eexists. split; [reflexivity|]. left. reflexivity.
@@ -188,14 +188,14 @@ Proof.
   - unfold unprepared in H.
     assert (G : forall ps, unprep_go c s h ps = (s', ev) -> In t (queue s) \/ enqueued_by h (RUnprepared id tag) ev t).
     { intros [[pid qs] ks0] G. unfold unprep_go in G.
-      destruct (negb (uses_ks c) && is_some ks0 && negb (opt_eqb (conn_ks s) ks0)); inversion G; subst.
+      destruct (negb (uses_ks c) && is_some ks0 && negb (opt_eqb (conn_ks s) ks0)); inversion G; subst; qnorm.
       - left. exact Hin.
       - cbn [queue push_task] in Hin. apply in_app_iff in Hin. destruct Hin as [Hin|[<-|[]]]; auto.
         right. cbn. split; [reflexivity|]. eauto. }
     destruct (fut_ps c) as [[[pid pqs] pks]|].
-    + destruct (negb (pid =? id)); [inversion H; subst; left; exact Hin|].
+    + destruct (negb (pid =? id)); [inversion H; subst; qnorm; left; exact Hin|].
       destruct (lookup (known c) id); eapply G; eauto.
-    + destruct (lookup (known c) id); [eapply G; eauto|inversion H; subst; left; exact Hin].
+    + destruct (lookup (known c) id); [eapply G; eauto|inversion H; subst; qnorm; left; exact Hin].
 Qed.
 
 (* a task in the queue after a step was there before, or was enqueued by the response just delivered *)
@@ -205,19 +205,19 @@ Theorem step_queue c s o s' ev t : step c s o = (s', ev) -> In t (queue s') ->
 Proof.
   intros H Hin. destruct o as [|i r|k| |h0 p|k]; cbn [step] in H.
   - apply send_request_queue in H. left. congruence.
-  - destruct (nth_error (attempts s) i) as [a|] eqn:N; [|inversion H; subst; left; exact Hin].
-    destruct (a_done a) eqn:D; [inversion H; subst; left; exact Hin|].
+  - destruct (nth_error (attempts s) i) as [a|] eqn:N; [|inversion H; subst; qnorm; left; exact Hin].
+    destruct (a_done a) eqn:D; [inversion H; subst; qnorm; left; exact Hin|].
     destruct (a_prep a) eqn:Pp.
-    + inversion H; subst. cbn [queue push_task set_attempts] in Hin. apply in_app_iff in Hin.
+    + inversion H; subst; qnorm. cbn [queue push_task set_attempts] in Hin. apply in_app_iff in Hin.
       destruct Hin as [Hin|[<-|[]]]; auto. right. exists i, r, a. rewrite Pp. auto.
     + destruct (set_result_queue _ _ _ _ _ _ _ H Hin) as [G|G]; [left; exact G|].
       right. exists i, r, a. rewrite Pp. auto.
-  - destruct (nth_error (queue s) k) as [t0|]; [|inversion H; subst; left; exact Hin].
+  - destruct (nth_error (queue s) k) as [t0|]; [|inversion H; subst; qnorm; left; exact Hin].
     apply run_task_queue in H. rewrite H in Hin. cbn [queue set_queue] in Hin. left. eapply in_remove_nth; eauto.
   - left. unfold spec_fire in H.
-    destruct (negb (spec_armed s)); [inversion H; subst; exact Hin|].
-    destruct (completed (set_spec s false (spec_left s))); [inversion H; subst; exact Hin|].
-    destruct (attempts (set_spec s false (spec_left s))); [inversion H; subst; exact Hin|].
+    destruct (negb (spec_armed s)); [inversion H; subst; qnorm; exact Hin|].
+    destruct (completed (set_spec s false (spec_left s))); [inversion H; subst; qnorm; exact Hin|].
+    destruct (attempts (set_spec s false (spec_left s))); [inversion H; subst; qnorm; exact Hin|].
     destruct (send_request (set_spec s false (spec_left s)) false) as [s1 ev1] eqn:W. inversion H; subst.
     apply send_request_queue in W. unfold start_timer in Hin.
     destruct (spec_armed s1); [|destruct (0 <? spec_left s1)]; cbn in Hin; rewrite W in Hin; exact Hin.
